@@ -5,8 +5,9 @@ CONSTANTS
   MaxDepth = 4
   Actions <- CoreActions
   InitDeclared = 3
+CONSTANT BuildFuns <- FunsQ
 INIT Init
-NEXT Next
+NEXT NextB
 CONSTRAINT Bound
 INVARIANT InvCanonical
 INVARIANT InvDenInjective
